@@ -642,3 +642,27 @@ def _ancestors_of(node: ast.AST, stop: ast.AST) -> List[ast.AST]:
         out.append(p_)
         p_ = parent(p_)
     return out
+
+
+def w6_linked_pack_is_the_searchers(ctx) -> None:
+    """The recomputing tables replay *the searcher's pack*: link_searcher keeps the pack it is
+    handed, as it is.  A pack that is filtered or rebuilt on the way in (strategies that "cannot
+    matter" removed) cannot recompute the rules those strategies made."""
+    P = ctx.P
+    m = P.need_method("RecomputingDict", "link_searcher", own=True)
+    f = m.node
+    ctx.analysed(m)
+    stores = [st for st in walk_local(f) if isinstance(st, ast.Assign) and any(is_self_attr(t, "_pack") for t in st.targets)]
+    if not stores:
+        raise AnalysisError("W6: RecomputingDict.link_searcher no longer keeps the pack in self._pack")
+    params = set(m.params()[1:])
+    for st in stores:
+        v = st.value
+        defs = D.definitions(f).get(v.id, []) if isinstance(v, ast.Name) else []
+        if isinstance(v, ast.Name) and v.id in params and all(d[3] == "param" for d in defs):
+            ctx.ok("W6", "the recomputing table keeps the pack it is linked with, unchanged")
+        elif isinstance(v, ast.Attribute) and v.attr == "strategy_pack" and isinstance(v.value, ast.Name) and v.value.id in params:
+            ctx.ok("W6", "the recomputing table keeps the searcher's pack, unchanged")
+        else:
+            ctx.violation("W6", st, f"RecomputingDict.link_searcher keeps `{norm(D.expanded(f, v))[:70]}` (re-bound on the way) instead of the pack it is handed: the rules made by "
+                          "strategies that are no longer in it can never be recomputed (RuntimeError where the default database hands back the stored strategy)")
